@@ -42,10 +42,14 @@ Decls(ts, p, closing) ==      \* declarations until "}" (when inside `package x 
     ELSE IF ~closing /\ End(ts, p) THEN p
     ELSE LET q == Decl(ts, p) IN IF q = 0 THEN 0 ELSE Decls(ts, q, closing)
 Accepts(ts) ==
-    IF At(ts, 1, "kw:package") /\ ~At(ts, 2, "kw:object") THEN
-        LET a == QName(ts, 2)
-            b == IF At(ts, a, "kw:package") /\ At(ts, a + 1, "kw:object") THEN Aliases(ts, Eat(ts, Id(ts, a + 2), "{")) ELSE a
-            c == IF At(ts, b, "kw:package") THEN Decls(ts, Eat(ts, Id(ts, b + 1), "{"), TRUE) ELSE b
-        IN c > 0 /\ End(ts, c)
-    ELSE LET c == Decls(ts, 1, FALSE) IN c > 0 /\ End(ts, c)
+    \* a file starts with an optional package CLAUSE (`package a.b`), then an optional `package object x { aliases }`, then an optional
+    \* package BLOCK `package x { declarations }`. A one-segment package name has no clause: the file starts with the object / the block.
+    LET q == IF At(ts, 1, "kw:package") /\ ~At(ts, 2, "kw:object") THEN QName(ts, 2) ELSE 0
+        clause == q > 0 /\ ~At(ts, q, "{")
+        a == IF clause THEN q ELSE 1
+    IN IF At(ts, 1, "kw:package")
+       THEN LET b == IF At(ts, a, "kw:package") /\ At(ts, a + 1, "kw:object") THEN Aliases(ts, Eat(ts, Id(ts, a + 2), "{")) ELSE a
+                c == IF b > 0 /\ At(ts, b, "kw:package") THEN Decls(ts, Eat(ts, Id(ts, b + 1), "{"), TRUE) ELSE b
+            IN c > 0 /\ End(ts, c)
+       ELSE LET c == Decls(ts, 1, FALSE) IN c > 0 /\ End(ts, c)
 =============================================================================
